@@ -217,6 +217,35 @@ class StoreExec:
             return [(Outcome(store), local)]
         if isinstance(st, (ast.FunctionDef, ast.Import, ast.ImportFrom, ast.Delete)):
             return [(Outcome(store), local)]
+        if isinstance(st, ast.Try):
+            # try / except around checks and look-ups: the body must not write tracked state (a handler could
+            # then start from a half-written state); handlers start from the state before the body (an
+            # exception of an operation the engine does not model) and from every modelled raise
+            for n in ast.walk(st):
+                if self.tracked_path(n, ctx) is not None and isinstance(getattr(n, "ctx", None), ast.Store):
+                    raise AnalysisIncomplete("typestate: tracked state written inside a try statement in %s" % ctx["func"].qualname)
+            outs = []
+            loc_after = dict(local)
+            for a in ast.walk(ast.Module(body=list(st.body) + list(st.orelse), type_ignores=[])):
+                if isinstance(a, ast.Name) and isinstance(a.ctx, ast.Store):
+                    loc_after[a.id] = UNK
+            for o in self.exec_block(list(st.body) + list(st.orelse), store, local, ctx):
+                if o.kind == "raise" and st.handlers:
+                    for h in st.handlers:
+                        outs.extend(self.exec_block(h.body, o.store, local, ctx))
+                else:
+                    outs.append(o)
+            for h in st.handlers:
+                outs.extend(self.exec_block(h.body, store, local, ctx))
+            if st.finalbody:
+                fin = []
+                for o in outs:
+                    if o.kind == "next":
+                        fin.extend(self.exec_block(st.finalbody, o.store, loc_after, ctx))
+                    else:
+                        fin.append(o)
+                outs = fin
+            return [(o, loc_after) for o in outs]
         raise AnalysisIncomplete("typestate: unsupported statement %s in %s" % (type(st).__name__, ctx["func"].qualname))
 
     # -- expressions ----------------------------------------------------------------------------------
